@@ -491,11 +491,13 @@ def dec_state(v, spec, consts):
     }
 
 
-def gen_history(rng, maxlen=5):
+def gen_history(rng, maxlen=5, with_run=False):
     h = []
     for _ in range(rng.randint(1, maxlen)):
         u = rng.random()
-        if u < 0.3:
+        if with_run and u < 0.2:
+            h.append(["run", rng.choice([1, 1, 2]), rng.random() < 0.3])
+        elif u < 0.3:
             h.append(["unroll", rng.choice([1, 1, 2, 3])])
         elif u < 0.6:
             h.append(["space_unroll", rng.choice([1, 1, 2])])
@@ -784,6 +786,10 @@ def crop_check(ctx, spec, inj, space):
             rl, _ = run_plain(nm, loop, [0.0])
             for res, modes, tag in ((r1, list(range(c, T)), "crop"), (r0, list(range(0, T)), "nocrop")):
                 st = res.state
+                if st is None:
+                    if modes:
+                        found.append(("engine:crop:state-missing:" + tag, "no state returned, expected modes %s" % modes))
+                    continue
                 if st.num_modes != len(modes):
                     found.append(("engine:crop:state-modes:" + tag, "state has %d modes, expected modes %s" % (st.num_modes, modes)))
                     continue
@@ -915,6 +921,29 @@ def fresh_reference(spec, call):
     return canon_impl(obs_circuit(prog.circuit)), int(prog.init_num_subsystems)
 
 
+def _run_obs(prog, shots, space, inj):
+    eng = sf.Engine("gaussian")
+    kw = {"shots": shots}
+    if space:
+        kw["space_unroll"] = True
+    try:
+        with Inject(inj) as I:
+            res = eng.run(prog, **kw)
+    except Exception as e:
+        return ("err", type(e).__name__, repr(e))
+    st = res.state
+    return ("ok", np.array(res.samples, float), I.records, st.num_modes, np.array(st.means()), np.array(st.cov()))
+
+
+def _run_same(a, b):
+    if a[0] != b[0]:
+        return False
+    if a[0] == "err":
+        return a[1] == b[1]
+    return (a[1].shape == b[1].shape and np.allclose(a[1], b[1], atol=1e-9) and rec_close(a[2], b[2]) and a[3] == b[3]
+            and np.allclose(a[4], b[4], atol=1e-8) and np.allclose(a[5], b[5], atol=1e-8))
+
+
 def judge_history(ctx, spec, hist, data, emit=True):
     """Property predicate for call histories on the implementation:
        (a) after roll(): circuit is the original list of commands, reg_refs (index, active) and
@@ -931,8 +960,25 @@ def judge_history(ctx, spec, hist, data, emit=True):
     failed_unroll_shots = None
     for k, c in enumerate(hist):
         err = None
+        cache_hit = (c[0] == "unroll" and prog.unrolled_circuit is not None and prog._unrolled_shots == c[1]) or \
+                    (c[0] == "space_unroll" and prog.space_unrolled_circuit is not None and prog._unrolled_shots == c[1])
         try:
-            if c[0] == "lock":
+            if c[0] == "run" and prog.is_unrolled:
+                continue    # the engine then executes the user's pre-unrolled circuit as is: no agreed expectation
+            if c[0] == "run":
+                inj = data.get("inj") or [0.3, -0.5, 0.8, 0.1, -0.9, 0.4, 0.7, -0.2]
+                got = _run_obs(prog, c[1], c[2], inj)
+                want = _run_obs(build_tdm(spec), c[1], c[2], inj)
+                locked = True
+                if not _run_same(got, want):
+                    if got[0] == "err":
+                        sig = "history:run:raises:%s%s" % (got[1], ":space" if c[2] else "")
+                        what = "call %d (%s) raised %s although the same run on a fresh program gives %s" % (k, c, got[2], want[0] if want[0] == "ok" else want[2])
+                    else:
+                        sig = "history:run:differs-from-fresh%s" % (":space" if c[2] else "")
+                        what = "call %d (%s) gives different samples / outcome laws / state than the same run on a fresh program" % (k, c)
+                    found.append((sig, what))
+            elif c[0] == "lock":
                 prog.lock()
                 locked = True
             elif c[0] == "roll":
@@ -948,7 +994,7 @@ def judge_history(ctx, spec, hist, data, emit=True):
             found.append((sig, "call %d (%s) raised %r" % (k, c, e)))
             break
         if bool(prog.locked) != locked:
-            early = "early-return" if err is None else "error"
+            early = ("early-return" if cache_hit else "normal-return") if err is None else "error"
             found.append(("history:%s:unlocked-%s" % (c[0], early), "after call %d (%s) the program's lock flag is %s although it was %s before" % (k, c, prog.locked, locked)))
             locked = bool(prog.locked)
         if c[0] == "roll":
@@ -1155,8 +1201,9 @@ def search(ctx):
         judge_unroll(ctx, spec, space, shots, data)
     # 2. histories
     for _ in range(ctx.budget(200, 2000)):
-        spec = gen_spec(rng, allow_expr=False, allow_flags=False, max_T=4, max_N=3, single_band=rng.random() < 0.6, names=HIST_NAMES)
-        hist = gen_history(rng, 6)
+        spec = gen_spec(rng, allow_expr=False, allow_flags=False, max_T=4, max_N=3, single_band=rng.random() < 0.6, names=HIST_NAMES,
+                        physical=True, shift_kinds=("default",))
+        hist = gen_history(rng, 6, with_run=True)
         T = len(spec["arrays"][0])
         kinds = [c[0] for c in hist]
         alt = any(a in ("unroll", "space_unroll") and b == "roll" for a, b in zip(kinds, kinds[1:]))
